@@ -21,7 +21,7 @@ Rx(minsnr, shift) ==
      snrmin |-> minsnr, snrmax |-> minsnr + 120000, pdl |-> NONE, cd |-> 312000 - (shift \div 10), pmd |-> NONE]
 NoRx == [k \in MetricKeys |-> NONE]
 
-Outcome(reason, bidir, agg, nslots, dsnr, lib) ==
+Outcome(reason, bidir, agg, nslots, dsnr, lib, cdinf) ==
     LET path == reason \notin NoPathFamily IN
     [members |-> IF agg THEN <<[id |-> "r1", bw |-> 10000, key |-> "k", bidir |-> bidir],
                                [id |-> "r2", bw |-> 30000, key |-> "k", bidir |-> bidir]>>
@@ -33,12 +33,15 @@ Outcome(reason, bidir, agg, nslots, dsnr, lib) ==
      route |-> IF path THEN Route ELSE <<>>, type |-> "Voyager", mode |-> "mode 1",
      nm |-> IF reason # "" THEN <<>> ELSE IF nslots = 1 THEN <<<<-284, 4>>>> ELSE <<<<-284, 4>>, <<12, 8>>>>,
      bidir |-> bidir, hasRev |-> bidir /\ path,
-     rx |-> IF path THEN Rx(ThrU(lib) + dsnr, 0) ELSE NoRx,
-     rxRev |-> IF path /\ bidir THEN Rx(ThrU(lib) + dsnr - 230000, -410000) ELSE NoRx,
+     \* cdinf: at least one carrier is beyond the CD tolerance of the mode - the receiver's mean penalty is infinite
+     rx |-> IF path THEN [Rx(ThrU(lib) + dsnr, 0) EXCEPT !.cd = IF cdinf THEN Inf ELSE @] ELSE NoRx,
+     rxRev |-> IF path /\ bidir THEN [Rx(ThrU(lib) + dsnr - 230000, -410000) EXCEPT !.cd = IF cdinf THEN Inf ELSE @]
+               ELSE NoRx,
      power |-> 1258925, powerudbm |-> 1000000, mi |-> MI(lib)]
 
-Outcomes == {Outcome(r, b, a, n, d, l) : l \in {1, 2}, r \in {""} \cup Reasons, b \in BOOLEAN, a \in BOOLEAN, n \in {1, 2},
+Outcomes == {Outcome(r, b, a, n, d, l, FALSE) : l \in {1, 2}, r \in {""} \cup Reasons, b \in BOOLEAN, a \in BOOLEAN, n \in {1, 2},
                                       d \in {-6000, 0, 6000}}
+            \cup {Outcome(r, b, FALSE, 1, 0, 1, TRUE) : r \in NoModeFamily, b \in BOOLEAN}
 
 Init == o \in Outcomes /\ e = <<>> /\ row = <<>>
 Report == /\ e = <<>>
